@@ -91,7 +91,7 @@ theorem trimSuffix_id (suf s : Bytes) (h : suf.isSuffixOf s = false) : trimSuffi
 /-! ### SRT stream id, custom syntax `action:pathname[:user:pass][:query]` -/
 
 theorem action_ne_std (p : Bool) (rest : Bytes) : kStd.isPrefixOf (action p ++ rest) = false := by
-  cases p <;> simp [action, kStd, kRead, kPublish]
+  cases p <;> simp [action, kStd, kRead, kPublish, List.isPrefixOf]
 
 theorem mkCustom_action (p : Bool) (path query user pass : Bytes) :
     mkCustom (action p) path query user pass =
